@@ -531,7 +531,19 @@ def g_c11(rng, tier, budget):
                     return
 
 
-GENERATORS.update({"C19": g_c19, "C12": g_c12, "C11": g_c11})
+def g_c11_all(rng, tier, budget):
+    yield from g_c11(rng, tier, budget)
+    # the prefilters as the meta searcher uses them (incl. the private short-haystack path):
+    # a skipped match shows up as a wrong `find` answer
+    for needle, hay in mm_pairs_targeted(rng, tier):
+        if len(needle) <= 32:
+            continue
+        for (variant, cfg) in MM_CFGS_QUICK:
+            yield ("find %s auto default 1 0 %s %d %s" % (cfg, hx(needle), rng.randrange(64), hx(hay)),
+                   dict(cfg=variant, family="find-prefilter-" + cfg, untraced_widths=MM_UNTRACED[cfg]))
+
+
+GENERATORS.update({"C19": g_c19, "C12": g_c12, "C11": g_c11_all})
 
 
 # ---------------------------------------------------------------------------------------
@@ -692,6 +704,30 @@ def g_c05(rng, tier, budget):
                         yield ("ppfind %d %s %d %d %d %s %d %s" % (lanes, hx(needle), i1, i2, end_at_guard(fl), hx(sneedle),
                                                                    end_at_guard(H), hx(hay)),
                                dict(family="ppfind-foreign", domain="out", allow_model_ptroob=True))
+    # pair offsets close to 255 with needles of 250..290 bytes: min_haystack_len arithmetic
+    for lanes in (4, 8):
+        for L in (250, 255, 256, 258, 290):
+            needle = [0x61 + (i % 7) for i in range(L)]
+            for big in sorted(set([min(L - 1, 254), min(L - 1, 250), min(L - 1, 253)])):
+                for (i1, i2) in ((big, 0), (1, big)):
+                    minlen = max(L, big + lanes)
+                    for H in (minlen - 2, minlen - 1, minlen, minlen + 1, minlen + lanes, minlen + 2 * lanes + 1):
+                        hay = [0x61 + ((j + 3) % 7) for j in range(H)]
+                        exp = "panic" if H < minlen else "nopanic"
+                        yield ("pppre %d %s %d %d %d %s" % (lanes, hx(needle), i1, i2, end_at_guard(H), hx(hay)),
+                               dict(family="pppre-bigidx", expect=exp))
+                        yield ("ppfind %d %s %d %d %d %s %d %s" % (lanes, hx(needle), i1, i2, 0, hx(needle), end_at_guard(H), hx(hay)),
+                               dict(family="ppfind-bigidx", expect=exp))
+    for isa, B in (("sse2", 16), ("avx2", 32)):
+        for L in (230, 250, 256, 270, 285):
+            needle = [0x61 + (i % 7) for i in range(L)]
+            for big in sorted(set([min(L - 1, 254), min(L - 1, 240), min(L - 1, 224)])):
+                minlen = max(L, big + 16)
+                for H in range(minlen, minlen + 2 * B + 2, 3):
+                    hay = [0x2E] * H
+                    for kind in ("find", "pre"):
+                        yield ("ppreal %s %s %s %d %d %d %s %d %s" % (isa, kind, hx(needle), big, 0, 0, hx(needle), end_at_guard(H), hx(hay)),
+                               dict(family="ppreal-bigidx-" + isa, modelless=True))
     # real SSE2/AVX2 packed pair with the haystack ending at a guard page
     for isa, B in (("sse2", 16), ("avx2", 32)):
         for needle in ([0x61, 0x62, 0x63], [0x61] * 9, list(range(0x41, 0x41 + 20))):
@@ -734,10 +770,13 @@ UNTRACED = {"avx2": [16, 32], "sse2": [16, 32]}
 def byte_cases(rng, tier, maxlen):
     """(needles, base, hay) with the first/last match in every phase"""
     for k in (1, 2, 3):
-        nsets = NEEDLE_SETS[k] if tier == "thorough" else NEEDLE_SETS[k][:2]
-        for needles in nsets:
+        nsets = NEEDLE_SETS[k]
+        for si, needles in enumerate(nsets):
             fill = filler_for(needles)
-            for length in list(range(0, maxlen + 1)):
+            lens = list(range(0, maxlen + 1))
+            if tier == "quick" and si >= 2:
+                lens = [l for l in lens if l < 40 or l % 7 == si % 7]
+            for length in lens:
                 bases = [0, 1, 15, 31, 33, 63, end_at_guard(length)] if tier == "thorough" else [rng.randrange(64), end_at_guard(length)]
                 for base in bases:
                     pos_sets = [()]
@@ -775,6 +814,19 @@ def byte_cases(rng, tier, maxlen):
                             r[(row % 4) * q + j] = needles[j % k]
                         hay += r
                     yield needles, rng.randrange(64), hay + [fill] * 50
+    # near-miss bytes: haystacks made of bytes that differ from a needle in exactly one bit
+    # (incl. the top bit) or by one, with and without a real match
+    for k in (1, 2, 3):
+        for needles in NEEDLE_SETS[k]:
+            near = sorted(set(((n ^ (1 << b)) & 0xFF) for n in needles for b in range(8)) | set(((n + d) & 0xFF) for n in needles for d in (1, 255))) 
+            near = [b for b in near if b not in needles]
+            for length in (7, 8, 9, 16, 17, 33, 64, 100, 257):
+                for _ in range(2 if tier == "quick" else 6):
+                    hay = [rng.choice(near) for _ in range(length)]
+                    yield needles, rng.randrange(64), hay
+                    h2 = list(hay)
+                    h2[rng.randrange(length)] = needles[rng.randrange(k)]
+                    yield needles, rng.randrange(64), h2
     # multi-KiB haystacks
     for size in ((3000, 5000) if tier == "quick" else (3000, 5000, 9000, 20000)):
         for needles in ([0x61], [0x61, 0x62, 0x63]):
@@ -835,6 +887,12 @@ def dense_cases(rng, tier):
         for dens in (0.0, 0.1, 0.5, 0.9, 1.0):
             hay = [0x61 if rng.random() < dens else 0x2E for _ in range(length)]
             yield [0x61], rng.randrange(64), hay
+        # fillers one bit away from the needle (top bit, low bit) and arbitrary bytes
+        for n1 in (0x61, 0x0A, 0x00, 0x80, 0xFF):
+            near = [n1 ^ 0x80, n1 ^ 0x01, (n1 + 1) & 0xFF, n1 ^ 0x40]
+            hay = [n1 if rng.random() < 0.2 else rng.choice(near) for _ in range(length)]
+            yield [n1], rng.randrange(64), hay
+            yield [n1], rng.randrange(64), [rng.randrange(256) for _ in range(length)]
 
 
 def g_c07(rng, tier, budget):
@@ -874,6 +932,12 @@ def gen_iter(rng, tier, budget, count_heavy=False):
                     yield ("iterd %s 61 %d %s %s" % (picked, rng.randrange(64), hx(hay), ops or "-"),
                            dict(cfg=variant, family="iterd-small", untraced_widths=UNTRACED.get(picked)))
                     n += 1
+                    # the 2- and 3-needle iterators, incl. duplicate needles (the haystack
+                    # only contains the first needle)
+                    if not count_heavy and (len(ops) <= 3 or n % 5 == 0):
+                        for nd in ("6161", "6162", "616161", "616261", "626161"):
+                            yield ("iterd %s %s %d %s %s" % (picked, nd, rng.randrange(64), hx(hay), ops or "-"),
+                                   dict(cfg=variant, family="iterd-small-multi", untraced_widths=UNTRACED.get(picked)))
         if budget and n >= budget:
             return
     # long haystacks, sparse/dense, random long op strings, every configuration and wrapper
@@ -881,7 +945,7 @@ def gen_iter(rng, tier, budget, count_heavy=False):
         length = rng.choice([17, 33, 64, 65, 100, 257, 1000])
         dens = rng.choice([0.02, 0.2, 0.8])
         k = rng.choice([1, 2, 3])
-        needles = NEEDLE_SETS[k][0]
+        needles = rng.choice(NEEDLE_SETS[k])
         hay = [rng.choice(needles) if rng.random() < dens else 0x2E for _ in range(length)]
         ops = "".join(rng.choice("nnbbsc" if not count_heavy else "nbcc") for _ in range(rng.randrange(1, 40)))
         for (variant, picked, direct) in cfgs:
@@ -1236,6 +1300,13 @@ def c13_families(rng, sizes):
             # 5. candidate-free prefix then dense false candidates (keeps the prefilter on)
             yield ("free-prefix-then-dense", join_parts(["7879", rep("61", m - 2)]), m,
                    join_parts([rep("62", n // 2), rep("787962", n // 6)]), n // 2 + (n // 6) * 3)
+        # 7. non-periodic needles whose critical position is at an extreme: x y^(m-1) and
+        #    y^(m-1) x in y^n (every window matches the long side)
+        for m7 in (40, 255, max(41, n // 8)):
+            m7 = min(m7, n // 2)
+            yield ("crit-at-start", join_parts(["61", rep("62", m7 - 1)]), m7, rep("62", n), n)
+            yield ("crit-at-end", join_parts([rep("62", m7 - 1), "61"]), m7, rep("62", n), n)
+            yield ("crit-at-start-inert", join_parts(["61", rep("62", m7 - 1)]), m7, join_parts([rep("6162", 64), "63", rep("62", n)]), n + 129)
         # 6. needle nearly as long as the haystack (n in [m, 2m)): few windows, each as expensive
         #    as possible; rolling-hash collisions (only the last 32 bytes influence the hash)
         m = n // 2 + 1
